@@ -115,6 +115,8 @@ func prgSampling(args []string) int {
 	res = append(res, st...)
 	v, ev := prgx.SampledLargeN(*seed, *per)
 	res = append(res, samplingOut{"sampled-large-n", ev, v})
+	v, ev = prgx.RejectionRuns(*seed)
+	res = append(res, samplingOut{"rejection-runs", ev, v})
 	res = append(res, samplingOut{"arguments", 20, prgx.SamplingArgs(*seed)})
 	for i := range res {
 		if res[i].Violations == nil {
